@@ -198,6 +198,13 @@ func wildOwn(t *testing.T, ra *ndp.RouterAdvertisement, pre []ndp.Option) []ndp.
 	return ra.Options[len(pre):]
 }
 
+var (
+	c13Plugins = map[[2]int]*Prefix{}
+	c13Cur     []system.IP
+	c15Plugins = map[int]*Route{}
+	c15Cur     []system.Route
+)
+
 func c13Run(t *testing.T, out *vfh.Out, bits int, k int, as []system.IP) {
 	stanza := mp("::/64")
 	if bits != 64 {
@@ -207,9 +214,17 @@ func c13Run(t *testing.T, out *vfh.Out, bits int, k int, as []system.IP) {
 	onLink, auto := k&1 == 0, k&2 == 0
 	valid := time.Duration(7+k%5) * time.Second
 	pref := time.Duration(1+k%7) * time.Second
-	p := &Prefix{Auto: true, Prefix: stanza, OnLink: onLink, Autonomous: auto,
-		ValidLifetime: valid, PreferredLifetime: pref,
-		Addrs: func() ([]system.IP, error) { return as, nil }}
+	// one long-lived plugin per stanza variant, asked again and again about changing address lists
+	// (as the daemon does for every RA): nothing may be remembered from an earlier expansion
+	c13Cur = as
+	key := [2]int{bits, k % 140}
+	p, ok := c13Plugins[key]
+	if !ok || vfPrepareIfi != nil {
+		p = &Prefix{Auto: true, Prefix: stanza, OnLink: onLink, Autonomous: auto,
+			ValidLifetime: valid, PreferredLifetime: pref,
+			Addrs: func() ([]system.IP, error) { return c13Cur, nil }}
+		c13Plugins[key] = p
+	}
 	if vfPrepareIfi != nil {
 		p.Addrs = nil
 		if err := p.Prepare(vfPrepareIfi); err != nil {
@@ -466,8 +481,13 @@ func c15Run(t *testing.T, out *vfh.Out, k int, rs []netip.Prefix) {
 		routes[i] = system.Route{Prefix: p, Index: 1 + (i*7+k)%3, Preference: []ndp.Preference{ndp.Medium, ndp.Low, ndp.High}[(i+k/2)%3]}
 		c.Prefix(p)
 	}
-	rt := &Route{Auto: true, Prefix: mp("::/0"), Preference: pref, Lifetime: lt,
-		Routes: func() ([]system.Route, error) { return routes, nil }}
+	c15Cur = routes
+	rt, ok := c15Plugins[k%9]
+	if !ok || vfPrepareIfi != nil {
+		rt = &Route{Auto: true, Prefix: mp("::/0"), Preference: pref, Lifetime: lt,
+			Routes: func() ([]system.Route, error) { return c15Cur, nil }}
+		c15Plugins[k%9] = rt
+	}
 	if vfPrepareIfi != nil {
 		rt.Routes = nil
 		if err := rt.Prepare(vfPrepareIfi); err != nil {
